@@ -1804,6 +1804,18 @@ def _is_assign(left):
 
 
 # ------------------------------------------------------------------ exploration driver
+class Driver:
+    """a python-level sequence of calls explored like one function: `body(ex)` calls `ex.call_function(f, args)` several times (histories of operations on one state);
+    every fork inside any of the calls is explored, the path condition accumulates across the calls"""
+
+    def __init__(self, name, body):
+        self.name = self.short = name
+        self.debug = {}
+        self.params = []
+        self.body = body
+        self.kind = "fn"
+
+
 def explore(ctx: Ctx, fn: Function, args, capture_debug=True):
     work = [[]]
     paths = []
@@ -1817,7 +1829,7 @@ def explore(ctx: Ctx, fn: Function, args, capture_debug=True):
         ex = Exec(ctx, prefix)
         outcome, value = None, None
         try:
-            value = ex.call_function(fn, list(args))
+            value = fn.body(ex) if isinstance(fn, Driver) else ex.call_function(fn, list(args))
             outcome = "return"
         except Panic as p:
             outcome, value = "panic", p.msg
